@@ -1927,6 +1927,29 @@ class Interp:
         self.exec_block(node.orelse, env)
 
     def s_For(self, node, env):
+        # a search loop -- `for <t> in <seq>: if <cond>: return <elt>` -- is the statement form of
+        # `next((<elt> for <t> in <seq> if <cond>), <nothing>)`: over a byte string of symbolic length it is decided by
+        # the same first-match model (calls._first_match) instead of needing a loop contract
+        if (len(node.body) == 1 and not node.orelse and isinstance(node.body[0], ast.If) and not node.body[0].orelse
+                and len(node.body[0].body) == 1 and isinstance(node.body[0].body[0], ast.Return)
+                and node.body[0].body[0].value is not None):
+            from .calls import _first_match as _fm
+
+            _LG = LazyGen
+
+            gen_node = ast.GeneratorExp(
+                elt=node.body[0].body[0].value,
+                generators=[ast.comprehension(target=node.target, iter=node.iter, ifs=[node.body[0].test], is_async=0)])
+            ast.copy_location(gen_node, node)
+            ast.fix_missing_locations(gen_node)
+            try:
+                r_ = _fm(self, _LG(self, gen_node, env))
+            except Unsupported:
+                r_ = NotImplemented
+            if r_ is not NotImplemented:
+                if r_ is None:
+                    return  # no element satisfies the test: the loop runs off its end
+                raise ReturnSig(r_)
         if self.loop_handler is not None:
             r = self.loop_handler(self, node, env)
             if r is not NotImplemented:
